@@ -204,6 +204,23 @@ struct CallCtx {
     bool has_vptr[MAXPARAM] = {};
 };
 
+// thrown by the harness itself when a virtual_ptr argument carries a v-table pointer other than
+// its pointee's, or when copying a virtual_ptr changed the pointer it was copied from
+struct BadVptr {
+    int param;
+    bool copy_changed_source = false;
+};
+
+template<class VP>
+void source_unchanged(const VP& src, const void* obj, const std::uintptr_t* vptr, int i) {
+    if (static_cast<const void*>(&*src) != obj || src._vptr() != vptr)
+        throw BadVptr{i, true};
+}
+template<class VP>
+const void* pointee_of(const VP& v) {
+    return static_cast<const void*>(&*v);
+}
+
 template<class P>
 virtual_ptr<Node, P> make_vp(CallCtx& c, int i) {
     using VP = virtual_ptr<Node, P>;
@@ -214,12 +231,16 @@ virtual_ptr<Node, P> make_vp(CallCtx& c, int i) {
         return VP::final(*c.obj[i]);
     case RT_CONV_COPY: {
         virtual_ptr<NodeD, P> d(*c.objd[i]);
+        const void* o0 = pointee_of(d);
+        auto v0 = d._vptr();
         if (c.ival[0] & 1) {
             const virtual_ptr<NodeD, P>& cd = d;
             VP v(cd);
+            source_unchanged(d, o0, v0, i);
             return v;
         }
         VP v(d);
+        source_unchanged(d, o0, v0, i);
         return v;
     }
     case RT_CONV_MOVE: {
@@ -229,7 +250,10 @@ virtual_ptr<Node, P> make_vp(CallCtx& c, int i) {
     }
     case RT_COPY: {
         VP a(*c.obj[i]);
+        const void* o0 = pointee_of(a);
+        auto v0 = a._vptr();
         VP b(a);
+        source_unchanged(a, o0, v0, i);
         return b;
     }
     case RT_MOVE: {
@@ -255,7 +279,16 @@ virtual_ptr<std::shared_ptr<Node>, P> make_vsp(CallCtx& c, int i) {
     }
     case RT_CONV_COPY: {
         VPD d(c.spd[i]);
+        const void* o0 = d.get().get();
+        auto v0 = d._vptr();
+        long uc = d.get().use_count();
         VP v(d);
+        // a copy shares ownership with its source, which keeps pointing at the object
+        // (get() may return a copy: one use_count reading per statement)
+        const void* o1 = d.get().get();
+        long uc1 = d.get().use_count();
+        if (o1 != o0 || d._vptr() != v0 || uc1 != uc + 1)
+            throw BadVptr{i, true};
         return v;
     }
     case RT_CONV_MOVE: {
@@ -265,7 +298,14 @@ virtual_ptr<std::shared_ptr<Node>, P> make_vsp(CallCtx& c, int i) {
     }
     case RT_COPY: {
         VP a(c.sp[i]);
+        const void* o0 = a.get().get();
+        auto v0 = a._vptr();
+        long uc = a.get().use_count();
         VP b(a);
+        const void* o1 = a.get().get();
+        long uc1 = a.get().use_count();
+        if (o1 != o0 || a._vptr() != v0 || uc1 != uc + 1)
+            throw BadVptr{i, true};
         return b;
     }
     case RT_MOVE: {
@@ -468,10 +508,6 @@ struct holders<P, shape<Cs...>, std::index_sequence<Is...>> : holder<Cs, P, Is>.
     }
 };
 
-struct BadVptr {
-    int param;
-}; // thrown by the harness itself when a virtual_ptr argument
-                   // carries a v-table pointer other than its pointee's
 
 struct MethodOps {
     int shape, inst;
@@ -1004,7 +1040,7 @@ struct World : IWorld {
             out = outcome_of(y2::error_type(e));
         } catch (BadVptr& b) {
             out.kind = Outcome::OTHER_ERR;
-            out.status = -2; // virtual_ptr argument holds a foreign v-table pointer
+            out.status = b.copy_changed_source ? -3 : -2; // virtual_ptr argument holds a foreign v-table pointer / a copy changed its source
             out.arity = (size_t)b.param;
         } catch (y2::error&) {
             out.kind = Outcome::OTHER_ERR;
